@@ -914,6 +914,13 @@ def gen_c04_spec(rng: random.Random, A: int, P: int) -> Dict[str, Any]:
             slow = {h: {"async": True, "lat": rng.choice([0.3, 1.0, 2.0]), "style": rng.choice(["async", "async", "awaitable", "task"])}}
             spec["mws"] = [slow, spec["mws"][0]] if rng.random() < 0.7 else [spec["mws"][0], slow]
         spec["backend"]["fail"] = [f"m{i}" for i in range(len(msgs)) if rng.random() < 0.1]
+        if h == "post_execute" and rng.random() < 0.6:
+            # ... with the acknowledgement due right before that hook, and slow
+            spec["cfg"]["ack"] = "when_executed"
+            for m in msgs:
+                if m.get("ackable") and m.get("kind", "valid") == "valid":
+                    m["ack_kind"] = rng.choice(["async", "task", "awaitable"])
+                    m["ack_lat"] = rng.choice([0.4, 1.0])
     elif rng.random() < 0.2:
         # slow (well-behaved) middleware hooks: the message is being processed while they run
         spec["mws"] = [{h: {"async": True, "lat": rng.choice([0.3, 1.0, 2.0]), "style": rng.choice(["async", "async", "awaitable", "task"])}
